@@ -986,6 +986,64 @@ def gen_nested_try_function(rnd):
     return '\n'.join(L) + '\n'
 
 
+def gen_try_else_finally_function(rnd):
+    """a break / continue / return lexically inside the ELSE clause of a try statement that also has a finally
+    clause: the jump must run through the finally body, whose assignments are read after the jump (and are
+    overwritten on the fall-through path); the finally body reads what the else clause bound before jumping"""
+    k = [0]
+
+    def key():
+        k[0] += 1
+        return k[0]
+    v, u, w = rnd.sample(_progs.VARS, 3)
+    L = ['def f(a, b, c):', '    %s = T(%d)' % (v, key()), '    %s = T(%d)' % (u, key())]
+    loop = rnd.choice(['while', 'for', 'none'])
+    ind = 1
+    if loop == 'while':
+        L.append('    while D(%d):' % key())
+        ind = 2
+    elif loop == 'for':
+        L.append('    for %s in L(%d):' % (rnd.choice([x for x in _progs.VARS if x not in (v, u, w)]), key()))
+        ind = 2
+    p = '    ' * ind
+    L.append(p + 'try:')
+    L.append(p + '    T(%d, %s)' % (key(), v))
+    L.append(p + 'except %s:' % rnd.choice(['E0', 'E1', '(E0, E2)', 'Exception']))     # else needs a handler
+    L.append(p + '    %s = T(%d)' % (rnd.choice([v, u]), key()))
+    L.append(p + 'else:')
+    if rnd.random() < 0.5:
+        L.append(p + '    %s = T(%d)' % (u, key()))
+    jump = rnd.choice(['break', 'continue'] if loop != 'none' else ['return']) if rnd.random() < 0.8 else 'return'
+    jtext = 'return T(%d, %s)' % (key(), u) if jump == 'return' else jump
+    if rnd.random() < 0.75:
+        L.append(p + '    if D(%d):' % key())
+        if rnd.random() < 0.6:
+            L.append(p + '        %s = T(%d)' % (u, key()))
+        L.append(p + '        ' + jtext)
+        if rnd.random() < 0.4:
+            L.append(p + '    %s = T(%d, %s)' % (u, key(), u))
+    else:
+        L.append(p + '    ' + jtext)
+    L.append(p + 'finally:')
+    L.append(p + '    %s = T(%d)' % (v, key()))
+    if rnd.random() < 0.6:
+        L.append(p + '    %s = T(%d, %s)' % (w, key(), u))
+    else:
+        L.append(p + '    %s = T(%d)' % (w, key()))
+    L.append(p + '%s = T(%d)' % (v, key()))          # the fall-through path overwrites the finally assignment
+    if rnd.random() < 0.5:
+        L.append(p + '%s = T(%d)' % (w, key()))
+    tail = rnd.random()
+    if tail < 0.4:
+        L.append('    if D(%d):' % key())
+        L.append('        %s = T(%d, %s)' % (w, key(), v))
+    elif tail < 0.6:
+        L.append('    while D(%d):' % key())
+        L.append('        %s = T(%d, %s)' % (v, key(), v))
+    L.append('    return T(%d, %s, %s)' % (key(), v, u))
+    return '\n'.join(L) + '\n'
+
+
 def gen_paramless_function(rnd):
     """a function without parameters in which nothing is bound before a loop, and the first binding is the last
     CFG node of the loop body (the in-state of that node is empty when it is first visited)"""
@@ -1305,7 +1363,12 @@ def program_stream(rnd, it):
         return 'lambda', gen_escape_function(rnd, _progs.Opts(reads='safe', max_stmts=16, max_depth=2, raise_=False, try_=False, with_=False),
                                              lambdas=True)
     if k == 18:
-        return ('nested-try', gen_nested_try_function(rnd)) if (it // 20) % 2 else ('paramless', gen_paramless_function(rnd))
+        sel = (it // 20) % 3
+        if sel == 0:
+            return 'paramless', gen_paramless_function(rnd)
+        if sel == 1:
+            return 'nested-try', gen_nested_try_function(rnd)
+        return 'try-else-finally', gen_try_else_finally_function(rnd)
     return 'any', _progs.gen_function(rnd, _progs.Opts(reads='any', max_stmts=10))
 
 
@@ -1342,7 +1405,7 @@ def check_property(run, kind, generate):
     vlib.standard_proof_step(run, [check_vo])
     run.rule = ('seeded random functions (tools/gen/progs.py + closure extension tools/export/flow.py: assign/aug/tuple/del/if/while/'
                 'for(+else)/break/continue/return/raise/try-except-else-finally/with-as/nested def reading enclosing variables and '
-                'declaring nonlocal, called at later points, aliased / stored in a list / re-defined under the same name / called through sibling closures and two-hop chains after if/while/for statements assigning the captured variable; reads only of definitely bound names, plus a stream with maybe-unbound '
+                'declaring nonlocal, called at later points, lambdas stored and called later, raises reaching outer handlers, jumps in try-else under finally, parameterless functions, aliased / stored in a list / re-defined under the same name / called through sibling closures and two-hop chains after if/while/for statements assigning the captured variable; reads only of definitely bound names, plus a stream with maybe-unbound '
                 'reads) x decision vectors driving every test / trip count (0..3) / handler; corpus first; non-trivial = program with a '
                 'loop, try or local function; distinct by source text')
     rnd = random.Random(run.seed * 7919 + (6 if kind == 'rd' else 7))
